@@ -90,6 +90,17 @@ func c16Cells(tier string) []Cell {
 
 	cells = append(cells, Cell{ID: c16Cell{Kind: "invalidator", C: -1}.id()})
 
+	// Two Gets on two keys under ONE caller context that carries a TTL (a request-scoped context handed to several
+	// lookups): the TTL cell behind it is shared, the library may read it but must not write to it on its own.
+	for front := 0; front < 3; front++ {
+		for _, init := range []string{"SS", "SA", "TT"} {
+			for _, su := range []bool{false, true} {
+				f := FCfg{Front: front, SU: su, MS: true, Init: init, FailC: "00", Script: "o", Threads: [][]GOp{{{Key: 0}}, {{Key: 1}}}, Tags: []string{"sharedctx"}}
+				cells = append(cells, Cell{ID: c16Cell{Kind: "failover", F: &f, C: -1}.id()})
+			}
+		}
+	}
+
 	return cells
 }
 
@@ -349,12 +360,23 @@ func c16InvalidatorBody() func() {
 func c16FailoverBody(cfg FCfg) func() {
 	return func() {
 		h := newFHQuiet(cfg)
+		gctx := context.Background()
+		shared := len(cfg.Tags) > 0 && cfg.Tags[0] == "sharedctx"
 
-		for range cfg.Threads {
+		if shared {
+			gctx = cache.WithTTL(gctx, time.Hour, false)
+		}
+
+		for i := range cfg.Threads {
+			k := 0
+			if shared {
+				k = i
+			}
+
 			vsched.SpawnThread("Get", func() {
-				key := append([]byte(nil), h.keys[0]...)
+				key := append([]byte(nil), h.keys[k]...)
 				n := 0
-				_, _, _, _ = h.front.Get(context.Background(), key, func(ctx context.Context) (Tok, error) {
+				_, _, _, _ = h.front.Get(gctx, key, func(ctx context.Context) (Tok, error) {
 					n++
 					vsched.Yield()
 
@@ -401,7 +423,7 @@ func c16Run(c Cell, env *Env) CellResult {
 		name = fmt.Sprintf("InvalidationIndex %s || %s", c16IndexOps[cc.A], c16IndexOps[cc.B])
 	case "failover":
 		body = c16FailoverBody(*cc.F)
-		name = fmt.Sprintf("%s Get || Get init=%s script=%s su=%v sr=%v", frontNames[cc.F.Front], cc.F.Init, cc.F.Script, cc.F.SU, cc.F.SR)
+		name = fmt.Sprintf("%s Get || Get init=%s script=%s su=%v sr=%v %v", frontNames[cc.F.Front], cc.F.Init, cc.F.Script, cc.F.SU, cc.F.SR, cc.F.Tags)
 	case "invalidator":
 		body = c16InvalidatorBody()
 		name = "Invalidator Invalidate || Invalidate"
@@ -485,7 +507,7 @@ func init() {
 		ID: "C16", Title: "The public API is free of data races",
 		Cells: c16Cells, Run: c16Run, Race: true,
 		Rule: "client programs: EVERY unordered pair (self-pairs included) of {Read, Write, Delete, ExpireAll, DeleteAll, Len, Walk (reading Key/Value/ExpireAt), Dump, Restore, cleanup, cleanup+eviction, AddInvalidationLabels, InvalidateByLabels} " +
-			"on a shared instance x 3 backends x 3 eviction strategies; every pair of InvalidationIndex operations; two Gets on one key for Failover/FailoverOf x entry state x builder outcome x SyncUpdate x SyncRead incl. the background build; Invalidate || Invalidate; " +
+			"on a shared instance x 3 backends x 3 eviction strategies; every pair of InvalidationIndex operations; two Gets on one key for Failover/FailoverOf x entry state x builder outcome x SyncUpdate x SyncRead incl. the background build; two Gets on two keys under one shared TTL-carrying caller context; Invalidate || Invalidate; " +
 			"thorough adds all triples of the operations that touch entries in place. For each program ALL interleavings of its synchronisation operations within the bound are executed in a -race build whose scheduler hand-offs are invisible to the detector; " +
 			"the race detector is the per-execution oracle; a violation's signature is the unordered pair of top bool64/cache frames of the two accesses",
 		Assumptions: []string{
